@@ -359,19 +359,23 @@ def extra(tier, base_seed):
         if os.path.exists(segfile):
             os.remove(segfile)
         t0 = time.time()
-        p = subprocess.Popen([sys.executable, os.path.join(here, "repro", "real_run.py"), fn, outp,
-                              json.dumps({k: cfg[k] for k in ("grid", "box", "cores", "mask", "nslice", "cube_index")})],
-                             stdout=subprocess.DEVNULL, stderr=subprocess.PIPE, stdin=subprocess.DEVNULL)
-        try:
-            _, err = p.communicate(timeout=60)
-            hung = False
-        except subprocess.TimeoutExpired:
-            hung = True
+        for attempt in (0, 1):      # one retry: another program deleting /dev/shm entries can break a real run
+            p = subprocess.Popen([sys.executable, os.path.join(here, "repro", "real_run.py"), fn, outp,
+                                  json.dumps({k: cfg[k] for k in ("grid", "box", "cores", "mask", "nslice", "cube_index")})],
+                                 stdout=subprocess.DEVNULL, stderr=subprocess.PIPE, stdin=subprocess.DEVNULL)
             try:
-                os.killpg(p.pid, signal.SIGKILL)
-            except (ProcessLookupError, PermissionError):
-                p.kill()
-            p.communicate()
+                _, err = p.communicate(timeout=60)
+                hung = False
+            except subprocess.TimeoutExpired:
+                hung = True
+                try:
+                    os.killpg(p.pid, signal.SIGKILL)
+                except (ProcessLookupError, PermissionError):
+                    p.kill()
+                p.communicate()
+            if hung or (p.returncode == 0 and os.path.exists(outp)):
+                break
+            info["real_run_retries"] = info.get("real_run_retries", 0) + 1
         info["real_wall_s"] += time.time() - t0
         # only the segments this very run created are looked at (other programs may use /dev/shm concurrently)
         mine = [l.strip() for l in open(segfile)] if os.path.exists(segfile) else []
@@ -388,7 +392,9 @@ def extra(tier, base_seed):
                          "(the simulator's canonical run of the same input returned)" % _cfg_str(cfg), "cfg": _cfg_str(cfg)})
             continue
         if p.returncode != 0 or not os.path.exists(outp):
-            herr.append("conformance case %d (%s): real run failed rc=%s: %s" % (i, _cfg_str(cfg), p.returncode, (err or b"")[-300:]))
+            viol.append({"kind": "real-raised", "message": "REAL processes: fault-free filter_image failed twice (rc=%s) for %s "
+                         "while the simulated run returned: %s" % (p.returncode, _cfg_str(cfg),
+                                                                  (err or b"").decode("utf8", "replace")[-400:]), "cfg": _cfg_str(cfg)})
             continue
         if left:
             viol.append({"kind": "real-shm-leak", "message": "REAL processes: segments left in /dev/shm: %s" % left, "cfg": _cfg_str(cfg)})
